@@ -37,19 +37,21 @@ var harnessDirs = map[string]string{
 }
 
 type HarnessCfg struct {
-	Func      string                    `json:"func"`
-	Dir       string                    `json:"dir"` // harness directory name
-	Tiers     []string                  `json:"tiers,omitempty"`
-	Solver    string                    `json:"solver,omitempty"`
-	TimeoutMs int                       `json:"timeout_ms,omitempty"`
-	Params    map[string]map[string]int `json:"params,omitempty"` // tier -> name -> value
-	PanicsOK  bool                      `json:"panics_ok,omitempty"`
-	MaxPaths  map[string]int            `json:"max_paths,omitempty"`
-	BudgetS   map[string]int            `json:"budget_s,omitempty"`
-	Kernel    string                    `json:"kernel,omitempty"`
-	What      string                    `json:"what,omitempty"`
-	Bounds    string                    `json:"bounds,omitempty"`
-	Covers    []string                  `json:"covers,omitempty"`
+	Func             string                    `json:"func"`
+	Dir              string                    `json:"dir"` // harness directory name
+	Tiers            []string                  `json:"tiers,omitempty"`
+	Solver           string                    `json:"solver,omitempty"`
+	TimeoutMs        int                       `json:"timeout_ms,omitempty"`
+	Params           map[string]map[string]int `json:"params,omitempty"` // tier -> name -> value
+	PanicsOK         bool                      `json:"panics_ok,omitempty"`
+	DepthIsViolation bool                      `json:"depth_is_violation,omitempty"`
+	HangIsViolation  bool                      `json:"hang_is_violation,omitempty"`
+	MaxPaths         map[string]int            `json:"max_paths,omitempty"`
+	BudgetS          map[string]int            `json:"budget_s,omitempty"`
+	Kernel           string                    `json:"kernel,omitempty"`
+	What             string                    `json:"what,omitempty"`
+	Bounds           string                    `json:"bounds,omitempty"`
+	Covers           []string                  `json:"covers,omitempty"`
 }
 
 type PropCfg struct {
@@ -420,6 +422,8 @@ func cmdCheck(args []string) int {
 				okc = strings.Contains(out, "VP-ASSERT-FAIL "+v.Site+"\n")
 			case "hang":
 				okc = strings.Contains(out, "VP-TIMEOUT")
+			case "depth":
+				okc = strings.Contains(out, "VP-TIMEOUT") || strings.Contains(out, "VP-KILLED")
 			}
 			if !okc {
 				spurious++
@@ -515,7 +519,7 @@ func explore(ld *loaded, h HarnessCfg, tier string, workers int, known []KnownFi
 	w.opaque = map[string]bool{"text/template": true, "regexp": true, "time": true, "os": true, "reflect": true, "runtime": true, "syscall": true, "embed": true, "encoding/json": true, "html/template": true, "sync/atomic": true, "internal/reflectlite": true}
 	w.solverName = h.Solver
 	if w.solverName == "" {
-		w.solverName = "z3"
+		w.solverName = "z3-new"
 	}
 	w.timeoutMs = h.TimeoutMs
 	if w.timeoutMs == 0 {
@@ -524,6 +528,8 @@ func explore(ld *loaded, h HarnessCfg, tier string, workers int, known []KnownFi
 	if h.PanicsOK {
 		w.panicsOK[h.Func] = true
 	}
+	w.depthViolation = h.DepthIsViolation
+	w.hangViolation = h.HangIsViolation
 	for _, k := range known {
 		if k.Property == prop {
 			w.known = append(w.known, k)
@@ -849,7 +855,7 @@ func writeEvidence(prop, tier string, seed int, pc PropCfg, results []*harnessRe
 			"params": r.params, "paths": r.stats.Paths, "path_kinds": r.stats.PathKinds,
 			"solver_decisions": r.decided, "if_converted": r.stats.Merged, "assert_labels": r.asserts,
 			"queries": map[string]int{"sat": r.queries.Sat, "unsat": r.queries.Unsat, "unknown": r.queries.Unknown},
-			"solver":  defaultStr(r.cfg.Solver, "z3"), "solver_time_s": round1(r.solverTime.Seconds()), "wall_s": round1(r.wall.Seconds()),
+			"solver":  defaultStr(r.cfg.Solver, "z3-new"), "solver_time_s": round1(r.solverTime.Seconds()), "wall_s": round1(r.wall.Seconds()),
 			"candidates": len(r.violations), "max_call_depth": r.maxDepth, "budget_exhausted": r.timedOut,
 		})
 	}
